@@ -141,7 +141,12 @@ PeerView(r, isHead) ==
     mismatch  |-> Mismatch(r, isHead),
     declared  |-> IF Mismatch(r, isHead) THEN r.body.decl ELSE -2,
     mustClose |-> r.close \/ Mismatch(r, isHead),
-    frame     |-> Frame(r, isHead) ]
+    frame     |-> Frame(r, isHead),
+    \* the body in effect is a stream: it is closed when the response has been written.  A stream
+    \* whose Close fails makes that write fail like a mis-sized stream does (the response may be
+    \* cut short and the connection closed); a stream that was REPLACED before the write is closed
+    \* at the replacing call and has no influence on what the peer sees, whatever its Close returns
+    streamFinal |-> r.body.kind = "stream" ]
 
 \* ------------------------------------------------- labels for recorded deviations
 \* These operators never influence a view.  They name two situations in which fasthttp is
